@@ -716,3 +716,38 @@ def _cycle(E, PM, A):
     finally:
         PM.os = saved
     E.oblige("post:same-file", z3.BoolVal(bool(r)) == z3.Or(*same.values()))
+
+
+
+@pproof("py:parser._lookup_referenced_member/no-stale-answer", "Parser._lookup_referenced_member", ["C11", "C08"], must=["post:"])
+def _lookup_fresh(E, PM, A):
+    """resolution reads the scopes as they are NOW: a name resolved to an outer definition resolves to the inner one as soon as an
+    inner definition of that name has been declared in the open scope (a real Parser object built by its own constructor, real
+    scopes; one two-call history per name form)"""
+    ps = PM.Parser()
+    proto = A.Proto(name="p", filepath="f.bitproto")
+    outer_x = A.Alias(name="X", type=A.Uint(cap=3), _bound=proto)
+    outer_b = A.Message(name="B", _bound=proto)
+    outer_bx = A.Alias(name="X", type=A.Uint(cap=5), _bound=proto)
+    outer_b.push_member(outer_bx)
+    proto.push_member(outer_x)
+    proto.push_member(outer_b)
+    m = A.Message(name="M", _bound=proto)
+    ps.scope_stack = [proto, m]
+    ps.filepath_stack = ["f.bitproto"]
+    ps.scope_stack_init_length = 0
+    first = (ps._lookup_referenced_member("X"), ps._lookup_referenced_member("B.X"))
+    E.oblige("post:outer-before-shadowing", z3.BoolVal(first[0] is outer_x and first[1] is outer_bx))
+    inner_x = A.Alias(name="X", type=A.Uint(cap=9), _bound=proto)
+    inner_b = A.Message(name="B", _bound=proto)
+    inner_bx = A.Alias(name="X", type=A.Uint(cap=11), _bound=proto)
+    inner_b.push_member(inner_bx)
+    m.push_member(inner_x)
+    m.push_member(inner_b)
+    E.oblige("post:inner-after-shadowing", z3.BoolVal(ps._lookup_referenced_member("X") is inner_x))
+    E.oblige("post:inner-after-shadowing(dotted)", z3.BoolVal(ps._lookup_referenced_member("B.X") is inner_bx))
+    # and from another scope the outer ones are still what is visible
+    other = A.Message(name="N", _bound=proto)
+    ps.scope_stack = [proto, other]
+    E.oblige("post:other-scope-unaffected", z3.BoolVal(ps._lookup_referenced_member("X") is outer_x
+                                                         and ps._lookup_referenced_member("B.X") is outer_bx))
